@@ -342,7 +342,11 @@ impl TryFrom<&[u8]> for ExtendedAddr {
 
     fn try_from(slice: &[u8]) -> Result<Self, Self::Error> {
         let mut raw = Deserializer::from(std::io::Cursor::new(slice));
-        cbor_event::de::Deserialize::deserialize(&mut raw)
+        let addr = cbor_event::de::Deserialize::deserialize(&mut raw)?;
+        if (raw.as_ref().position() as usize) < slice.len() {
+            return Err(cbor_event::Error::TrailingData);
+        }
+        Ok(addr)
     }
 }
 impl cbor_event::se::Serialize for ExtendedAddr {
